@@ -56,14 +56,15 @@ theorem repLoop_back {α} (U : Nat → Inp → M → R α) (u : Nat → Nat → 
     (mx : Option Nat)
     (hU : ∀ idx i S trk, U idx i ⟨S, trk⟩ ≠ .oof → EvS (fun n => u n idx i S) (U idx i ⟨S, trk⟩).outcome) :
     ∀ (b idx : Nat) (i : Inp) (S : List Sp) (trk : Tracker) (acc : List α),
+      acc.length = idx →
       repLoop U min mx b idx i ⟨S, trk⟩ acc ≠ .oof →
       ∀ B : Nat → Nat, (∀ k, ∃ n0, ∀ n, n0 ≤ n → k ≤ B n) →
         EvS (fun n => specRepLoop (u n) min mx (B n) idx i S) (repLoop U min mx b idx i ⟨S, trk⟩ acc).outcome := by
   intro b
   induction b with
-  | zero => intro idx i S trk acc hne; exact absurd rfl hne
+  | zero => intro idx i S trk acc _ hne; exact absurd rfl hne
   | succ b ih =>
-    intro idx i S trk acc hne B hB
+    intro idx i S trk acc hlen hne B hB
     obtain ⟨nB, hnB⟩ := hB 1
     have hsucc : ∀ n, nB ≤ n → ∃ k, B n = k + 1 := fun n hn => ⟨B n - 1, by have := hnB n hn; omega⟩
     simp only [repLoop] at hne ⊢
@@ -75,8 +76,8 @@ theorem repLoop_back {α} (U : Nat → Inp → M → R α) (u : Nat → Nat → 
       rw [hk]
       simp only [specRepLoop, if_true]
       by_cases hlt : idx < min
-      · simp only [hlt, if_true]; rfl
-      · simp only [hlt, if_false]; rfl
+      · simp only [hlt, if_true, repDone_some, hlen]; rfl
+      · simp only [hlt, if_false, repDone_some, hlen]; rfl
     · simp only [hmax, if_false] at hne ⊢
       cases hr : U idx i ⟨S, trk⟩ with
       | oof => rw [hr] at hne; exact absurd rfl hne
@@ -94,7 +95,7 @@ theorem repLoop_back {α} (U : Nat → Inp → M → R α) (u : Nat → Nat → 
         simp only [restoreOnNone, Res.outcome]
         by_cases hlt : idx < min
         · simp only [hlt, if_true, Res.outcome]
-        · simp only [hlt, if_false, Res.outcome]
+        · simp only [hlt, if_false, repDone_of_le min mx i _ acc (by omega), Res.outcome]
       | ok i1 m1 a =>
         have h1 := hU idx i S trk (by rw [hr]; nofun)
         rw [hr] at h1
@@ -107,7 +108,8 @@ theorem repLoop_back {α} (U : Nat → Inp → M → R α) (u : Nat → Nat → 
           intro k
           obtain ⟨n0, h0⟩ := hB (k + 1)
           exact ⟨n0, fun n hn => by have := h0 n hn; simp only []; omega⟩
-        obtain ⟨n2, h2⟩ := ih (idx + 1) i1 S1 t1 (a :: acc) hne (fun n => B n - 1) hB'
+        obtain ⟨n2, h2⟩ := ih (idx + 1) i1 S1 t1 (a :: acc)
+          (by simp only [List.length_cons, hlen]) hne (fun n => B n - 1) hB'
         dsimp only at h2
         refine ⟨n1 + n2 + nB, fun n hn => ?_⟩
         obtain ⟨k, hk⟩ := hsucc n (by omega)
@@ -132,7 +134,7 @@ theorem atomicRepeat_back (G : NodeGrammar) (uni : Uni) (inh : Bool) (X : Node) 
       (parse G uni (k+1) inh (.atomicRepeat X) i ⟨S, trk⟩).outcome := by
   simp only [parse] at hne ⊢
   have hloop := repLoop_back (fun _ i m => parse G uni k inh X i m) u 0 none hX (atomicBudget k) 0 i S
-    (Tracker.new i) ([] : List Val)
+    (Tracker.new i) ([] : List Val) rfl
   cases hr : repLoop (fun _ i m => parse G uni k inh X i m) 0 none (atomicBudget k) 0 i
       ⟨S, Tracker.new i⟩ ([] : List Val) with
   | oof => rw [hr] at hne; exact absurd rfl hne
@@ -497,7 +499,7 @@ theorem rep_back {g : PGrammar} {uni : Uni} {n' : Nat} (hB : ∀ m, m ≤ n' →
     (repUnitP (parse (gen g) uni k false (gen g).skipped) (parse (gen g) uni k inh (genExpr g sk e))
       (defaultSkipVal (gen g)) (skipCount sk inh))
     (fun n idx i S => if idx = 0 then spec g uni n na e i S else specThen g uni n na e i S)
-    min mx hU k 0 i S trk ([] : List Val)
+    min mx hU k 0 i S trk ([] : List Val) rfl
   simp only [parse] at hne ⊢
   cases hr : repLoop (repUnitP (parse (gen g) uni k false (gen g).skipped)
       (parse (gen g) uni k inh (genExpr g sk e)) (defaultSkipVal (gen g)) (skipCount sk inh))
